@@ -158,6 +158,12 @@ class Arr:
         return Arr(self.shape, self.fn, self.dtype, self.kind, self.mask, self.chunks, self.origin)
 
     def astype(self, t, **kw):
+        if self.dtype == "bool" and t is not bool and getattr(t, "name", None) not in ("bool", "bool_"):
+            # a boolean array as numbers: the indicator of each element
+            r = ewise(lambda c: T.mk_ind(C(c)) if isinstance(c, Cond) else (ONE if c is True else (ZERO if c is False else P(c))), self,
+                      dtype="real" if floaty(t) else "int")
+            r.origin = frozenset()
+            return r
         r = self.copy()
         r.origin = frozenset()
         if floaty(t):
